@@ -188,7 +188,15 @@ impl<'a, 'b> Generator<'a, 'b> {
                     iis!(self, t, "__VARIANT{{ \"{}\", {} }}", v, self.expand(a))
                 }
 
-                IR::Index(t, a, i) => ii!(self, t, "__INDEX({}, {})", a, i),
+                // Reads of mutable data are not inlined at their use: a call evaluated in
+                // between could change what is read.
+                IR::Index(t, a, i) => {
+                    if self.usage_count.get(t).unwrap_or(&0) > &0 {
+                        let a = self.expand(a).to_string();
+                        let i = self.expand(i);
+                        write!(self.out, "local {} = __INDEX({}, {})", t.format(), a, i);
+                    }
+                }
 
                 IR::Function(f, params) => {
                     write!(self.out, "local ");
@@ -274,7 +282,12 @@ impl<'a, 'b> Generator<'a, 'b> {
                     write!(self.out, "__CRASH(\"{}\")()", msg);
                 }
 
-                IR::Access(t, a, f) => iis!(self, t, "{}{}", self.expand(a), lua_field(f)),
+                IR::Access(t, a, f) => {
+                    if self.usage_count.get(t).unwrap_or(&0) > &0 {
+                        let a = self.expand(a);
+                        write!(self.out, "local {} = {}{}", t.format(), a, lua_field(f));
+                    }
+                }
 
                 IR::Copy(t, a) => {
                     if self.usage_count.get(t).unwrap_or(&0) > &0 {
